@@ -15,7 +15,7 @@ Relevant source files (relative to the worktree): {', '.join(p['anchors']['files
 Task: make ONE small, realistic change to the library sources under {wt}/src (the kind of slip a maintainer could make during a refactor or an optimisation: a wrong sign/coefficient/index, a dropped copy, a reordered pair of statements, a weakened guard, a swapped argument, a missing case ...) such that
   1. the property above is now violated,
   2. every Python file still compiles/imports, and
-  3. the existing test suite still passes exactly as before the change. Run it from the worktree like this (it needs about 4-6 minutes; the environment variable makes the worktree's sources take precedence over the installed ones):
+  3. the existing test suite still passes exactly as before the change. Run it from the worktree like this (it needs about 1-3 minutes; the environment variable makes the worktree's sources take precedence over the installed ones):
         cd {wt} && PYTHONPATH={wt}/src /venv/bin/python -m pytest -q -p no:cacheprovider --timeout=900 --continue-on-collection-errors -n 4 -x -q 2>&1 | tail -15
      Note: on the UNCHANGED tree 380 tests pass and a fixed set of 18 tests/collection items already fail (msbar masses, legacy, dictlike serialization, genpdf antiqed/exceptions, some benchmarks that need network files). Drop `-x` if those pre-existing failures stop the run. Your change must not alter which tests pass or fail. It is fine (and faster) to first run only the test files closest to your change and then the full suite once at the end.
   4. The violation must need something specific to manifest - a particular input or parameter regime (e.g. one value of nf, one perturbative order, one method), a multi-step sequence of operations, a failure at a particular point, or two cooperating sites that each look fine alone - NOT something any ordinary use would expose at once. Prefer a change that is subtle and physically/semantically meaningful over a crude one.
